@@ -40,9 +40,11 @@ class Session:
             if os.path.exists(p):
                 os.remove(p)
         r = C.run_tlc(self.wd, module, cfg=cfg, workers=workers, timeout=timeout, simulate=simulate,
-                      on_line=on_line, heap=heap, raw_replay=raw_replay)
+                      on_line=on_line, heap=heap, raw_replay=raw_replay, coverage=False)   # TLC -coverage runs out of heap on these specs (deep recursion): not used
         entry = {"module": label or module, "states": r["distinct"], "transitions": r["states"],
                  "wall_s": round(r["wall"], 1), "result": "ok" if r["ok"] else ("violated:%s" % r["violated"])}
+        if r.get("actions"):
+            entry["actions"] = r["actions"]      # TLC -coverage: per action distinct states found : times taken
         if expect_violation:
             # which property TLC reports first can depend on worker scheduling: the control has served its
             # purpose when the mutated / legacy model violates any of its properties
